@@ -272,6 +272,10 @@ pub fn record_toml(out_path: &str, count: u64) {
                         crate::scen::replace_random_node(&mut v, &mut rng, &V::Map(vec![(V::Str("a".into()), V::Int(1)), (V::Str("b".into()), V::Int(3)), (V::Str("a".into()), V::Int(2))]), false);
                         "repeated-key"
                     }
+                    6 if from == "toml" => {
+                        // not a document at all: TOML text with a byte that is not UTF-8 inside a string
+                        "not-utf8"
+                    }
                     6 if from != "toml" => {
                         v = rng.pick(&[V::Seq(vec![v.clone()]), V::Int(7), V::Str("text".into()), V::Bool(false), V::F64(1.5), V::Null, V::Null]).clone();
                         "root"
@@ -282,7 +286,13 @@ pub fn record_toml(out_path: &str, count: u64) {
                 vid += 1;
                 o.rec(json!({"ev": "value", "vid": vid}));
                 let in_tree = v.tree();
-                let Some(bytes) = val::encode(&v, from, Spell { seed: rng.next() | 1 }) else { continue };
+                let Some(mut bytes) = val::encode(&v, from, Spell { seed: rng.next() | 1 }) else { continue };
+                let mut in_tree = in_tree;
+                if planted == "not-utf8" {
+                    bytes.extend_from_slice(b"zz = \"caf\xe9\"\n");
+                    // nothing TOML could read back as the input: the model's "not a table" stands for "not a document"
+                    in_tree = V::Null.tree();
+                }
                 let bytes = Rc::new(bytes);
                 for (sched, mode) in [(None, "slice"), (Some(Sched::Random(Rng::new(rng.next()), 13)), "reader")] {
                     let (res, out, msg) = xlate(&bytes, Some(from), "toml", sched);
@@ -344,7 +354,13 @@ pub fn record_hops(out_path: &str, count: u64) {
         } else {
             (val::gen_doc(&mut rng, &GenOpts::streaming()), "common3")
         };
-        let Some(src) = val::encode(&v, a, Spell { seed: rng.next() | 1 }) else { continue };
+        // TOML's date-times (which no other format has): a TOML document carrying all four kinds, as written
+        let (a, src, model) = if i == 10 {
+            ("toml", b"odt = 1979-05-27T07:32:00Z\nldt = 1979-05-27T00:32:00.999999\nld = 1979-05-27\nlt = 07:32:00\n[t]\ninner = 2001-01-01T00:00:00+09:00\narr = [1979-05-27, 1980-01-01]\n".to_vec(), "common4")
+        } else {
+            let Some(src) = val::encode(&v, a, Spell { seed: rng.next() | 1 }) else { continue };
+            (a, src, model)
+        };
         let vid = i + 1;
         o.rec(json!({"ev": "value", "vid": vid}));
         // every path A -> x1 [-> x2 [-> x3]]
